@@ -6,7 +6,8 @@ in generated order).  Reference model: a built-in list of validated items.
 Environment: the validator is a callback point (raise at the k-th item), the
 iterable argument may raise at its k-th element, gc at callback points.
 """
-from ..core import Violation, stream, sut, exc_name, exc_class, InjectedFault
+from ..core import Violation, stream, sut, exc_name, InjectedFault
+from ..values import CUR, ModelTraitError, raw, mval, make_validator, RaisingIter
 
 ID = "C05"
 
@@ -15,69 +16,6 @@ OPS = ["setitem_i", "setitem_s", "setitem_s_match", "delitem_i", "delitem_s",
        "remove", "sort", "reverse", "clear"]
 
 STEPS = [None, 1, -1, 2, -2, 3, -3, "L+1", "-(L+1)", 0]
-
-
-# ---------------------------------------------------------------- values
-
-class ModelTraitError(Exception):
-    pass
-
-
-def mval(spec, vkind):
-    """The model's validator: value spec -> validated value (or raise)."""
-    t = spec["t"]
-    if t == "int":
-        return spec["v"]
-    if vkind == "none":
-        if t == "str":
-            return spec["v"]
-        if t == "bad":
-            return None
-    if t == "str":          # digits: coercible
-        return int(spec["v"])
-    if t == "bad":
-        raise ModelTraitError()
-    raise AssertionError(spec)
-
-
-def raw(spec):
-    t = spec["t"]
-    if t == "int" or t == "str":
-        return spec["v"]
-    if t == "bad":
-        return None
-    raise AssertionError(spec)
-
-
-def make_validator(vkind, env):
-    from traits.trait_errors import TraitError
-    if vkind == "none":
-        return None
-
-    def coerce(item):
-        if vkind == "point":
-            env.point("validator", item if isinstance(item, (int, str)) else None)
-        if type(item) is int:
-            return item
-        if type(item) is str and item.isdigit():
-            return int(item)
-        raise TraitError("bad item %r" % (item,))
-    return coerce
-
-
-class RaisingIter:
-    def __init__(self, items, raise_at, exc):
-        self.items = items
-        self.raise_at = raise_at
-        self.exc = exc
-
-    def __iter__(self):
-        for i, x in enumerate(self.items):
-            if i == self.raise_at:
-                raise exc_class(self.exc)("iterable failed at %d" % i)
-            yield x
-        if self.raise_at is not None and self.raise_at >= len(self.items):
-            raise exc_class(self.exc)("iterable failed at end")
 
 
 # ---------------------------------------------------------------- helpers
@@ -157,6 +95,110 @@ def apply_event(before, index, removed, added):
     return b
 
 
+def gen_list_op(r, m, item, ops=OPS):
+    """One list-mutator op with indices/slices chosen around len(m)."""
+    L = len(m)
+    k = r.choice(ops)
+    op = {"k": k}
+
+    def ri():
+        return r.randint(-L - 3, L + 3)
+
+    def rs():
+        def f():
+            return r.choice([None] + list(range(-L - 3, L + 4)))
+        st = res_index(r.choice(STEPS), L)
+        return [f(), f(), st]
+    if k == "setitem_i":
+        op["i"] = ri()
+        op["v"] = item()
+    elif k == "setitem_s":
+        op["s"] = rs()
+        op["vs"] = [item() for _ in range(r.randint(0, 3))]
+        if r.random() < 0.03:
+            op["noniter"] = True
+    elif k == "setitem_s_match":
+        op["k"] = "setitem_s"
+        op["s"] = rs()
+        try:
+            n = len(m[mk_slice(op["s"])])
+        except ValueError:
+            n = 1
+        op["vs"] = [item() for _ in range(n)]
+    elif k == "delitem_i":
+        op["i"] = ri()
+    elif k == "delitem_s":
+        op["s"] = rs()
+    elif k in ("append",):
+        op["v"] = item()
+    elif k in ("extend", "iadd"):
+        op["vs"] = [item() for _ in range(r.randint(0, 3))]
+    elif k == "insert":
+        op["i"] = ri()
+        op["v"] = item()
+    elif k == "imul":
+        op["n"] = r.choice([-1, 0, 1, 2, 2, 3])
+    elif k == "pop":
+        op["i"] = ri()
+    elif k == "remove":
+        op["v"] = {"t": "int", "v": r.choice(m) if m and r.random() < 0.8 else 7}
+    elif k == "sort":
+        op["reverse"] = r.random() < 0.5
+        op["key"] = r.choice([None, None, "neg", "mod3"])
+    return op
+
+
+def sut_list_apply(tl, op):
+    """Apply a list op to the system under test; returns (ret, exc)."""
+    k = op["k"]
+    arg = None
+    if "vs" in op:
+        items = [raw(s) for s in op["vs"]]
+        if "iter_raise_at" in op:
+            arg = RaisingIter(items, op["iter_raise_at"], op["iter_exc"])
+        else:
+            arg = items
+    if k == "setitem_i":
+        return sut(tl.__setitem__, op["i"], raw(op["v"]))
+    if k == "setitem_s":
+        return sut(tl.__setitem__, mk_slice(op["s"]), 5 if op.get("noniter") else arg)
+    if k == "delitem_i":
+        return sut(tl.__delitem__, op["i"])
+    if k == "delitem_s":
+        return sut(tl.__delitem__, mk_slice(op["s"]))
+    if k == "append":
+        return sut(tl.append, raw(op["v"]))
+    if k == "extend":
+        return sut(tl.extend, arg)
+    if k == "iadd":
+        return sut(tl.__iadd__, arg)
+    if k == "insert":
+        return sut(tl.insert, op["i"], raw(op["v"]))
+    if k == "imul":
+        return sut(tl.__imul__, op["n"])
+    if k == "pop":
+        return sut(tl.pop, op["i"])
+    if k == "pop_last":
+        return sut(tl.pop)
+    if k == "remove":
+        return sut(tl.remove, raw(op["v"]))
+    if k == "sort":
+        return sut(tl.sort, key=KEYS[op.get("key")], reverse=op.get("reverse", False))
+    if k == "reverse":
+        return sut(tl.reverse)
+    if k == "clear":
+        return sut(tl.clear)
+    raise AssertionError(k)
+
+
+def cover_list_op(env, op, L):
+    k = op["k"]
+    if k in ("setitem_i", "delitem_i", "insert", "pop"):
+        env.cover(k, min(L, 6), iclass(op["i"], L))
+    elif k in ("setitem_s", "delitem_s"):
+        env.cover(k, min(L, 6), sclass(op["s"], L))
+
+
 # ---------------------------------------------------------------- property
 
 class Prop:
@@ -209,54 +251,8 @@ class Prop:
         m = [s["v"] for s in init]
         ops = []
         for _ in range(nops):
-            L = len(m)
-            k = r.choice(OPS)
-            op = {"k": k}
-
-            def ri():
-                return r.randint(-L - 3, L + 3)
-
-            def rs():
-                def f():
-                    return r.choice([None] + list(range(-L - 3, L + 4)))
-                st = res_index(r.choice(STEPS), L)
-                return [f(), f(), st]
-            if k == "setitem_i":
-                op["i"] = ri()
-                op["v"] = item()
-            elif k == "setitem_s":
-                op["s"] = rs()
-                op["vs"] = [item() for _ in range(r.randint(0, 3))]
-                if r.random() < 0.03:
-                    op["noniter"] = True
-            elif k == "setitem_s_match":
-                op["k"] = "setitem_s"
-                op["s"] = rs()
-                try:
-                    n = len(m[mk_slice(op["s"])])
-                except ValueError:
-                    n = 1
-                op["vs"] = [item() for _ in range(n)]
-            elif k == "delitem_i":
-                op["i"] = ri()
-            elif k == "delitem_s":
-                op["s"] = rs()
-            elif k in ("append",):
-                op["v"] = item()
-            elif k in ("extend", "iadd"):
-                op["vs"] = [item() for _ in range(r.randint(0, 3))]
-            elif k == "insert":
-                op["i"] = ri()
-                op["v"] = item()
-            elif k == "imul":
-                op["n"] = r.choice([-1, 0, 1, 2, 2, 3])
-            elif k == "pop":
-                op["i"] = ri()
-            elif k == "remove":
-                op["v"] = {"t": "int", "v": r.choice(m) if m and r.random() < 0.8 else 7}
-            elif k == "sort":
-                op["reverse"] = r.random() < 0.5
-                op["key"] = r.choice([None, None, "neg", "mod3"])
+            op = gen_list_op(r, m, item)
+            k = op["k"]
             # environment events attached to this op
             if "vs" in op and r.random() < 0.08:
                 op["iter_raise_at"] = r.randint(0, len(op["vs"]))
@@ -370,7 +366,8 @@ class Prop:
         from traits.observation import expression
         cfg = trace["config"]
         vkind = cfg["vkind"]
-        validator = make_validator(vkind, env)
+        CUR["env"] = env
+        validator = make_validator(vkind, "validator")
         m = [mval(s, vkind) for s in cfg["init"]]
         tl = TraitList([raw(s) for s in cfg["init"]], item_validator=validator)
         if list(tl) != m:
@@ -400,52 +397,8 @@ class Prop:
             fired0 = env.fired["raise"]
             ret_m, val_exc, list_exc = self.model_apply(m, op, vkind)
             # ---- apply to the system under test
-            if "vs" in op:
-                items = [raw(s) for s in op["vs"]]
-                if "iter_raise_at" in op:
-                    arg = RaisingIter(items, op["iter_raise_at"], op["iter_exc"])
-                else:
-                    arg = items
-            if k == "setitem_i":
-                ret, e = sut(tl.__setitem__, op["i"], raw(op["v"]))
-                env.cover("setitem_i", min(L, 6), iclass(op["i"], L))
-            elif k == "setitem_s":
-                sl = mk_slice(op["s"])
-                ret, e = sut(tl.__setitem__, sl, 5 if op.get("noniter") else arg)
-                env.cover("setitem_s", min(L, 6), sclass(op["s"], L))
-            elif k == "delitem_i":
-                ret, e = sut(tl.__delitem__, op["i"])
-                env.cover("delitem_i", min(L, 6), iclass(op["i"], L))
-            elif k == "delitem_s":
-                ret, e = sut(tl.__delitem__, mk_slice(op["s"]))
-                env.cover("delitem_s", min(L, 6), sclass(op["s"], L))
-            elif k == "append":
-                ret, e = sut(tl.append, raw(op["v"]))
-            elif k == "extend":
-                ret, e = sut(tl.extend, arg)
-            elif k == "iadd":
-                ret, e = sut(tl.__iadd__, arg)
-            elif k == "insert":
-                ret, e = sut(tl.insert, op["i"], raw(op["v"]))
-                env.cover("insert", min(L, 6), iclass(op["i"], L))
-            elif k == "imul":
-                ret, e = sut(tl.__imul__, op["n"])
-            elif k == "pop":
-                ret, e = sut(tl.pop, op["i"])
-                env.cover("pop", min(L, 6), iclass(op["i"], L))
-            elif k == "pop_last":
-                ret, e = sut(tl.pop)
-            elif k == "remove":
-                ret, e = sut(tl.remove, raw(op["v"]))
-            elif k == "sort":
-                ret, e = sut(tl.sort, key=KEYS[op.get("key")],
-                             reverse=op.get("reverse", False))
-            elif k == "reverse":
-                ret, e = sut(tl.reverse)
-            elif k == "clear":
-                ret, e = sut(tl.clear)
-            else:
-                raise AssertionError(k)
+            ret, e = sut_list_apply(tl, op)
+            cover_list_op(env, op, L)
             env.end_op()
             injected = env.fired["raise"] > fired0
             if injected:
@@ -574,6 +527,9 @@ class Prop:
                 t = dict(trace)
                 t["config"] = dict(cfg, init=cfg["init"][:j] + cfg["init"][j + 1:])
                 yield t
+
+    def cleanup(self):
+        CUR["env"] = None
 
     # -------------------------------------------------------------- coverage
     def coverage_report(self, cells):
